@@ -146,19 +146,20 @@ Section LatchViews.
       + rewrite Hrace. reflexivity.
     - (* AArrive *)
       destruct Hok as [Hu Hna].
+      remember (nth_error (ctr s) 0) as prev eqn:Eprev in *.
       remember (length (ctr s)) as L eqn:HL0 in *.
       constructor; cbn [clk ctr seen dat race opened arrived aclk length]; auto.
       all: rewrite <- ?HL0.
       + intros t. unfold fupd. eqd t u; [lia|]. specialize (Hseen t). lia.
       + intros j m Hn. destruct j as [|j]; cbn in Hn.
         * inversion Hn; subst m. unfold rmw_msg. cbn [mval].
-          unfold read_val. destruct (nth_error (ctr s) 0) as [p|] eqn:Ep.
+          unfold read_val. destruct prev as [p|]; symmetry in Eprev; pose proof Eprev as Ep.
           -- rewrite (Hval 0 p Ep). try fold L. lia.
           -- assert (L = 0) as HL by (rewrite HL0; destruct (ctr s); [reflexivity|discriminate]). rewrite HL. cbn. lia.
         * rewrite (Hval j m Hn). try fold L. try (f_equal; lia).
       + intros j m Hn. destruct j as [|j]; cbn in Hn.
         * inversion Hn; subst m. unfold rmw_msg. cbn [mrel]. rewrite Hrel.
-          destruct (nth_error (ctr s) 0) as [p|] eqn:Ep.
+          destruct prev as [p|]; symmetry in Eprev; pose proof Eprev as Ep.
           -- destruct (Hrl 0 p Ep) as [r [Er Hr]]. rewrite Er. eexists; split; [reflexivity|].
              intros x a Ha Hle. unfold fupd in Ha |- *. eqd x u.
              ++ apply vle_join_l.
@@ -176,7 +177,7 @@ Section LatchViews.
           -- apply (Hr x a Ha). lia.
       + intros x a Ha. unfold fupd in *. eqd x u.
         * inversion Ha; subst a. try fold L. split; [lia|].
-          eapply vle_trans; [|apply vle_inc]. apply acq_clock_ge.
+          eapply vle_trans; [|apply vle_inc]. rewrite <- Eprev. apply acq_clock_ge.
         * destruct (Harr x a Ha) as [A B]. split; [lia|exact B].
       + intros k Hk. try fold L in Hk.
         destruct (Nat.eq_dec k (S L)) as [->|Hne].
@@ -186,7 +187,7 @@ Section LatchViews.
       + intros x. destruct (Hdat x) as (Hd1 & Hd2 & Hd3 & Hd4). unfold fupd. eqd x u.
         * repeat split; auto.
           -- eapply Nat.le_trans; [exact Hd2|]. rewrite vinc_self.
-             pose proof (acq_clock_ge s u u) as G. lia.
+             pose proof (acq_clock_ge s u u) as G. rewrite Eprev in G. lia.
           -- intros; discriminate.
         * repeat split; auto.
       + intros w so Ho. destruct (Hop w so Ho) as (A & B & C).
@@ -196,7 +197,7 @@ Section LatchViews.
         * intros x a Ha Hle. unfold fupd in Ha |- *. eqd x u.
           -- inversion Ha; subst a. lia.
           -- specialize (C x a Ha Hle). eqd w u; auto.
-             eapply vle_trans; [exact C|]. eapply vle_trans; [|apply vle_inc]. apply acq_clock_ge.
+             eapply vle_trans; [exact C|]. eapply vle_trans; [|apply vle_inc]. rewrite <- Eprev. apply acq_clock_ge.
     - (* ALoad *)
       rename Hok into Hw.
       set (i := pick true (ctr s) (clk s w) (seen s w) ch).
